@@ -58,12 +58,13 @@ theorem C04_faults_end_driver (s : St) (hr : s.drv = .running) :
   · intro h1 h2; simp [step, hr, h1, h2]
   · intro h2; simp [step, hr, h2]
 
-/-- once the driver has ended, a later operation fails immediately with a send error and nothing
-is queued -/
+/-- once the driver has ended, a later operation fails immediately with a send error, nothing
+is queued and its message ID is released again (fix F22) -/
 theorem C04_later_ops_fail (s : St) (i : Nat) (o : Op) (tmo : Option Nat) (hd : s.drv ≠ .running)
     (ho : s.ops[i]? = some o) (hp : o.phase = .allocated) :
     step s (.enqueue i tmo) =
-      some ({ s with ops := s.ops.set i { o with res := some .opSendErr, phase := .taken, mail := .dropped } },
+      some ({ s with ops := s.ops.set i { o with res := some .opSendErr, phase := .taken, mail := .dropped }
+                     inUse := eraseId s.inUse o.id },
             .sendErr) := by
   simp [step, ho, hp, hd]
 
